@@ -125,7 +125,8 @@ def run(ctx):
     cl_traces = [c05.record_compile(ptn, c['L'], c['idoid'], c['chains'], c['phys']) for c in cl_cases]
     for c in cl_cases:
         ctx.count(c, nontrivial=len(c['chains']) >= 2)
-    bad = validate_chunks(ctx, 'TraceOpChains', 'tcw', cl_traces, chunk=ctx.pick(40, 300))
+    bad = validate_chunks(ctx, 'TraceOpChains', 'tcw', cl_traces, chunk=ctx.pick(40, 300),
+                          relax=lambda tr: [r for r in tr if r.get('ev') not in ('site', 'partition', 'cover')])
     for idx, why in sorted(bad.items())[:20]:
         clause = why[0][2] if why and len(why[0]) > 2 else 'rejected'
         ctx.violation(f'compact:chains:{why[0][1] if why else "?"}:{clause[:60]}',
